@@ -64,6 +64,7 @@ LinkCerts(s, r, l0, reach) ==      \* per-row witnesses must be genuine before a
 StateClauses(s, r, isFirst) ==
   LET reach == Reach(s, r) IN
   UNION {NodeClauses(s, r, s.nodes[i], reach, isFirst) : i \in DOMAIN s.nodes}
+  \cup (IF Want(s, "C05") THEN {"C05.ctl_consistent@" \o s.cctl[i].link : i \in CtlConsistent(s, r, reach)} ELSE {})
   \cup (IF Want(s, "C02") \/ Want(s, "C09")
         THEN UNION {IF ~LinkCerts(s, r, s.links[i], reach) THEN {"CERT.bad"}
                     ELSE {c \in LinkClauses(s, r, s.links[i], reach) :
@@ -94,6 +95,7 @@ Acc0(s, r) == [n \in TankNames(s) |-> [q |-> Abs(N(r.dem[n])), off |-> ~OnCurve(
 AccNext(s, a, r) == [n \in TankNames(s) |-> [q |-> MaxD(a[n].q, Abs(N(r.dem[n]))),
                                               off |-> a[n].off \/ ~OnCurve(NodeRec(s, n), Level(r, NodeRec(s, n)))]]
 StepClauses(s, p, r, a) ==
+  (IF Want(s, "C05") /\ s.all THEN {"C05.no_overshoot@" \o s.cctl[i].node : i \in NoOvershoot(s, p, r)} ELSE {}) \cup
   IF Want(s, "C06") /\ s.all
   THEN UNION {IF s.nodes[i].type = "T"
               THEN Bad("C06.tank_step@" \o s.nodes[i].name, TankStep(p, r, s.nodes[i]))
